@@ -66,15 +66,32 @@ theorem C14_status_faithful (evs : List Ev) (s : CS) (h : runTrace init evs = so
         cases e <;> first | rfl | exact absurd rfl (h3 _)
   simpa [init] using key evs init s h rfl ⟨⟩
 
-/-- **After close() returns**: the state is CLOSED, the link has been shut, no receive task is alive -/
+/-- **After close() returns**: the state is CLOSED, the link has been shut, and no receive task is alive —
+unless close() was called from inside the receive task itself (from the status callback that task runs):
+then that task is the caller; it is not cancelled and can only end (`C14_inner_close_receiver_only_exits`) -/
 theorem C14_close_returns (s s' : CS) (h : step s .closeReturn = some s') :
-    s.st = .closed ∧ s.recv = none ∧ (∀ c, s.conn = some c → c ∈ s.writerClosed) ∧ s'.closeReturned = true := by
+    s.st = .closed ∧ (s.recv = none ∨ s.closeFromRecv = true) ∧ (∀ c, s.conn = some c → c ∈ s.writerClosed) ∧ s'.closeReturned = true := by
   obtain ⟨t, ht, rfl⟩ := L13.step_eq_some.1 h
-  simp only [stepCore, L13.guard_eq_some, Bool.and_eq_true, decide_eq_true_eq, Option.isNone_iff_eq_none] at ht
+  simp only [stepCore, L13.guard_eq_some, Bool.and_eq_true, Bool.or_eq_true, decide_eq_true_eq, Option.isNone_iff_eq_none] at ht
   obtain ⟨⟨⟨⟨h1, h2⟩, h3⟩, h4⟩, rfl⟩ := ht
   refine ⟨h2, h3, ?_, rfl⟩
   intro c hc
   simpa [hc] using h4
+
+/-- after a close() from inside the receive task, that task performs no further read iteration (it can only exit),
+in every continuation the model accepts -/
+theorem C14_inner_close_receiver_only_exits (s s' : CS) (e : Ev) (hf : s.closeFromRecv = true) (h : step s e = some s') :
+    (∀ c p, e ≠ .recvIter c p) ∧ s'.closeFromRecv = true := by
+  obtain ⟨t, ht, rfl⟩ := L13.step_eq_some.1 h
+  constructor
+  · intro c p he
+    subst he
+    simp [stepCore, L13.guard_eq_some, hf] at ht
+  · cases e <;> simp only [stepCore] at ht <;> (repeat' split at ht) <;>
+      first
+        | (obtain ⟨_, rfl⟩ := L13.guard_eq_some.1 ht; simp [hf])
+        | (cases ht; simp [hf])
+        | (simp at ht)
 
 /-- … and from then on no receive callback runs -/
 theorem C14_quiet_after_close (s s' : CS) (evs : List Ev) (hc : s.closeReturned = true) (h : runTrace s evs = some s') :
@@ -85,5 +102,10 @@ theorem C14_quiet_after_close (s s' : CS) (evs : List Ev) (hc : s.closeReturned 
 example : (runTrace init [.connCall, .implStart, .implOk 1, .status .connected, .connReturn, .recvStart 1, .closeCall, .status .closed,
     .writerClose 1, .sleep 10, .recvExit 1 true, .sleep 10, .closeReturn]).map (fun s => (s.st, s.closeReturned, s.statusLog)) =
     some (.closed, true, [.connected, .closed]) := by decide +kernel
+
+-- non-vacuity: the user closes from the status callback at the first fault (the callback runs inside the receive task)
+example : (runTrace init [.connCall, .implStart, .implOk 1, .status .connected, .connReturn, .recvStart 1, .envEof 1, .status .disconnected,
+    .closeCallInRecv, .status .closed, .writerClose 1, .closeReturn, .recvExit 1 false]).map (fun s => (s.st, s.closeReturned, s.recv, s.statusLog)) =
+    some (.closed, true, none, [.connected, .disconnected, .closed]) := by decide +kernel
 
 end N2k.Client
